@@ -537,8 +537,8 @@ func run(r *core.Run) {
 	r.Assume("violations are reported minimal-shape-first: a shape that contains an already reported shape (same relation) as a subsequence is counted under subsumed_violations, not reported")
 
 	fam := map[string]map[int][][]string{
-		"tail":    byDepth(tailShapes(tailDepth)),
-		"blocked": byDepth(insertedShapes(insDepth, blockerTokens)),
+		"tail":              byDepth(tailShapes(tailDepth)),
+		"blocked":           byDepth(insertedShapes(insDepth, blockerTokens)),
 		"transparency-only": byDepth(insertedShapes(1, nontailTokens)),
 	}
 	for _, f := range []string{"tail", "blocked", "transparency-only"} {
